@@ -208,6 +208,7 @@ func need(s schema) (q, c, sg int) {
 //	            new process whose schema grew by a name enumerated before the old ones
 //	rename    - renames failing at each of their storage calls / stopped between them, followed
 //	            by new processes whose schema has the old name, the new name or both
+//	big       - see genBig
 //	limit     - seeded rows next to an ID limit
 //	malformed - stored rows / versions the code must refuse, renames that must be refused
 func genScenario(r *kit.Rng, backend, kind string) *scenario {
@@ -381,12 +382,64 @@ func genScenario(r *kit.Rng, backend, kind string) *scenario {
 	return sc
 }
 
+// genBig: schemas whose registries hold more rows than any plausible batch portion (130..300
+// containers, or > 128 type names, or > 128 singletons); the first start fails at its k-th
+// PutBatch (k runs over the calls a start issues and beyond), is retried in the process or by a
+// new process, and is followed by a new process whose schema grew by names enumerated before the
+// old ones: rows that did not reach the storage would get other IDs there
+func genBig(r *kit.Rng, backend string, idx int) *scenario {
+	sc := &scenario{Backend: backend}
+	var cur schema
+	variant := idx % 3
+	switch variant {
+	case 0: // many containers on a few documents
+		n := 130 + r.Intn(171)
+		docs := []docSpec{{Name: "mm"}, {Name: "sa", Singleton: true}, {Name: "zz"}}
+		for i := 0; i < n; i++ {
+			d := &docs[i%len(docs)]
+			d.Containers = append(d.Containers, fmt.Sprintf("c%03d", i))
+		}
+		cur.Docs = docs
+	case 1: // many type names
+		for i, n := 0, 130+r.Intn(40); i < n; i++ {
+			cur.Docs = append(cur.Docs, docSpec{Name: fmt.Sprintf("d%03d", i), Singleton: i%7 == 0})
+		}
+	default: // many singletons
+		for i, n := 0, 130+r.Intn(40); i < n; i++ {
+			cur.Docs = append(cur.Docs, docSpec{Name: fmt.Sprintf("s%03d", i), Singleton: true})
+		}
+	}
+	k := 1 + (idx/3)%5
+	first := &stepSpec{Kind: "start", Schema: ptr(cloneSchema(cur)), Fault: &faultSpec{Point: "nthbatch", K: k}}
+	sc.Steps = append(sc.Steps, first)
+	if r.Bool() {
+		sc.Steps = append(sc.Steps, &stepSpec{Kind: "retry", Puts: []string{pkgName + "." + cur.Docs[0].Name}})
+	} else {
+		sc.Steps = append(sc.Steps, &stepSpec{Kind: "start", Schema: ptr(cloneSchema(cur)), Puts: []string{pkgName + "." + cur.Docs[0].Name}})
+	}
+	// the grown schema: new names that sort before the old ones in every registry
+	grown := cloneSchema(cur)
+	grown.Docs[0].Containers = append([]string{"a00", "a01"}, grown.Docs[0].Containers...)
+	grown.Docs = append(grown.Docs, docSpec{Name: "a0", Singleton: true, Containers: []string{"a02"}}, docSpec{Name: "a1"})
+	second := &stepSpec{Kind: "start", Schema: ptr(grown), Puts: []string{pkgName + ".a0"}}
+	if r.Chance(1, 3) {
+		second.Fault = &faultSpec{Point: "nthbatch", K: 1 + r.Intn(3)}
+		sc.Steps = append(sc.Steps, second, &stepSpec{Kind: "retry"})
+	} else {
+		sc.Steps = append(sc.Steps, second)
+	}
+	sc.Steps = append(sc.Steps, &stepSpec{Kind: "start", Schema: ptr(cloneSchema(grown))})
+	return sc
+}
+
 func ptr[T any](x T) *T { return &x }
 
 func kindOf(i int) string {
 	switch i % 10 {
-	case 0, 1:
+	case 0:
 		return "history"
+	case 1:
+		return "big"
 	case 2, 3:
 		return "interrupt"
 	case 4, 5:
@@ -452,7 +505,13 @@ func Generate(seed uint64, n int, tier string, corpusDir string, out *kit.Out) e
 			backend = "bbolt"
 		}
 		kind := kindOf(i)
-		if err := emit(genScenario(cr, backend, kind), kind, out); err != nil {
+		sc := (*scenario)(nil)
+		if kind == "big" {
+			sc = genBig(cr, backend, i/10)
+		} else {
+			sc = genScenario(cr, backend, kind)
+		}
+		if err := emit(sc, kind, out); err != nil {
 			return err
 		}
 	}
